@@ -254,7 +254,28 @@ func callPaths(r *lib.Run) {
 				covered++
 			}
 		}
+		// gossip only considers table entries; the table's own revalidation may drop a peer at any time (these
+		// scripted peers do not answer the node's pings), so a peer is judged only if it is an entry both
+		// before and after the call
+		entries := func() map[enode.ID]bool {
+			m := map[enode.ID]bool{}
+			for _, b := range node.P.VerifTable().VerifSnapshot(false).Buckets {
+				for _, e := range b.Entries {
+					m[e.ID] = true
+				}
+			}
+			return m
+		}
+		before := entries()
 		sel, err := node.P.GossipAndReturnPeers(nil, [][]byte{key}, [][]byte{{1}})
+		after := entries()
+		inTable := func(id enode.ID) bool { return before[id] && after[id] }
+		covered = 0
+		for pid, p := range plan {
+			if p.in && inTable(pid) {
+				covered++
+			}
+		}
 		r.Eval(1)
 		if err != nil {
 			r.Inconclusive("gossip case %d: %v", i, err)
@@ -274,7 +295,7 @@ func callPaths(r *lib.Run) {
 		}
 		if covered <= 4 { // with at most four covered peers all of them are taken
 			for pid, p := range plan {
-				if p.in && !picked[pid] {
+				if p.in && inTable(pid) && !picked[pid] {
 					r.Violation("inrange-path:gossip-covered-peer-skipped", fmt.Sprintf("gossip skipped peer %x.. although its reported radius %s covers the content and only %d peers are covered", pid[:4], p.rad.Hex(), covered),
 						map[string]any{"content_key": lib.Hex(key), "content_id": lib.Hex(id[:]), "peer": pid.String(), "radius": p.rad.Hex()})
 				}
